@@ -20,6 +20,7 @@ import deepali.spatial  # noqa: F401
 import deepali.spatial.generic  # noqa: F401
 
 from mc.core import Acc, exc_text, guarded, h64, tensor_bytes
+from checks import layout_spatial as LS
 from ref import grid as rg
 from ref import transform as rt
 from ref.grid import AXES, CORNERS, CUBE, GRID, WORLD, RefGrid
@@ -32,7 +33,9 @@ RULE = (
     "(to_axes omitted / each explicit) plus to_grid forms (quick: every form with an omitted argument, all 16 explicit pairs for the "
     "omitted grid, one rotating explicit pair per explicit grid) / PointSetTransformer for the same argument product / ImageTransformer "
     "for 4x4 (target, source) grids and with either argument omitted) is executed on the real object; distinct = configuration x view x argument form; non-trivial = at least "
-    "one judged point and the reference map moves a judged point by > 1e-3 world units"
+    "one judged point and the reference map moves a judged point by > 1e-3 world units; plus the `layout` sub-check: parameters handed to "
+    "constructors / data_(), point sets handed to __call__ / points() / PointSetTransformer and image data handed to ImageTransformer as "
+    "transposed, step-sliced, stride-0 expanded and channels-last views must give the result of the contiguous form, raise nothing and stay unchanged"
 )
 EXPLANATION = "every view of every transform configuration compared in world space with the float64 denotation of its parameters"
 ASSUMPTIONS = [
@@ -45,7 +48,7 @@ ASSUMPTIONS = [
 ]
 MIN_NONTRIVIAL = {"quick": 20000, "thorough": 150000}
 MIN_OUTCOMES = {"quick": 20000, "thorough": 150000}
-MIN_SUB_TRACES = {"repeat": 2000, "call": 1000, "disp": 1000, "tensor": 500, "points": 5000, "pointset": 500, "image": 2000}
+MIN_SUB_TRACES = {"layout": 300, "repeat": 2000, "call": 1000, "disp": 1000, "tensor": 500, "points": 5000, "pointset": 500, "image": 2000}
 
 EPS32 = 2.0 ** -23
 C = 64.0
@@ -305,6 +308,7 @@ def bounds(tier):
         "parameter_kinds": ["param", "buffer"],
         "parameter_menu": ["default", "const (dense)", "small", "large"],
         "views": {"repeat(call,tensor,disp,call x grad/no_grad)": 8, "state_dict fingerprint": 1, "call": 4, "disp/flow": 9, "tensor/matrix": 2, "points(grid x axes x to_axes omitted/explicit, + to_grid forms)": 102 if tier == "quick" else 275, "pointset": 23 if tier == "quick" else 113, "image(target/source omitted or explicit)": 17 if tier == "quick" else 23},
+        "layout_cases(non-contiguous parameters / point sets / image data)": len(layout_cases(tier, 0)),
         "depth": 1,
     }
 
@@ -989,15 +993,202 @@ def grid_indices(r: RefGrid) -> np.ndarray:
 SHARD_SIZE = {"quick": 6, "thorough": 12}
 
 
+# ---------------------------------------------------------------------------
+# layout sub-check: non-contiguous user tensors (parameters, point sets, image data)
+LAYOUT_POINT_CLASSES = ("Translation", "HomogeneousTransform", "AffineTransform", "DisplacementFieldTransform",
+                        "StationaryVelocityFieldTransform", "FreeFormDeformation")
+LAYOUT_IMAGE_CLASSES = ("AffineTransform", "DisplacementFieldTransform", "StationaryVelocityFreeFormDeformation")
+
+
+def layout_cases(tier: str, seed: int):
+    out = []
+    for D in (2, 3):
+        k = 0
+        for cls in LS.classes(D):
+            for form in LS.FORMS:
+                for route in ("ctor", "data_"):
+                    k += 1
+                    kinds = ("buffer", "param") if tier == "thorough" else (("buffer", "param")[k % 2],)
+                    for kind in kinds:
+                        out.append({"sub": "layout", "target": "params", "cls": cls, "D": D, "form": form, "route": route, "kind": kind, "seed": seed})
+        for cls in LAYOUT_POINT_CLASSES:
+            for form in ("transposed", "sliced", "expanded"):
+                for api in ("call", "call-grid", "points-world", "pointset"):
+                    out.append({"sub": "layout", "target": "points", "cls": cls, "D": D, "form": form, "api": api, "seed": seed})
+        for cls in LAYOUT_IMAGE_CLASSES:
+            for form in LS.FORMS:
+                out.append({"sub": "layout", "target": "image", "cls": cls, "D": D, "form": form, "seed": seed})
+    return out
+
+
+def run_layout(case, acc: Acc = None):
+    """One layout case. Returns [(sig, detail)]."""
+    from deepali.spatial import ImageTransformer, PointSetTransformer
+
+    out = []
+    D, cls, form, seed = case["D"], case["cls"], case["form"], case["seed"]
+    gspec = [g for g in grid_menu(D, "quick", seed) if g["name"] == "g1T"][0]
+    grid = rg.real_grid(gspec)
+    rgrid = rg.ref_grid(gspec)
+    N = 2
+    short = SHORT.get(cls, cls)
+
+    def emit(where, kind, detail):
+        out.append((f"C06/layout/{case['target']}/{short}/{where}/layout={form}/{kind}", detail))
+
+    def judged(key):
+        if acc is not None:
+            acc.trace("layout", depth=1)
+            acc.state("layout", json_key(case))
+            acc.nontriv("layout", json_key(case), key)
+
+    if case["target"] == "params":
+        st, b = guarded(LS.build, cls, D, grid, N, case["kind"], case["route"], form, seed)
+        if acc is not None:
+            acc.trans(2)
+        where = f"{case['route']}[{case['kind']}]"
+        if st == "raises":
+            emit(where, raises_kind(b), exc_text(b))
+            return out
+        if b is None:
+            if acc is not None:
+                acc.undef("layout form not applicable to the parameter shape")
+            return out
+        t, r, supplied = b
+        x = LS.probe_points(D, N)
+        for view, fn in (("call", lambda o: o(x.clone())), ("tensor", lambda o: o.tensor()), ("disp", lambda o: o.disp())):
+            st1, a1 = guarded(fn, t)
+            st2, a2 = guarded(fn, r)
+            if acc is not None:
+                acc.trans(2)
+            if st2 == "raises":
+                if acc is not None:
+                    acc.undef("contiguous form raises (judged by the main sub-checks)")
+                continue
+            if st1 == "raises":
+                emit(f"{where}/{view}", raises_kind(a1), exc_text(a1))
+                continue
+            c_ = LS.compare(a1, a2)
+            if c_:
+                emit(f"{where}/{view}", c_[0], c_[1])
+            if acc is not None:
+                acc.outcome("layout", json_key(case), view, tensor_bytes(a1))
+            judged(view)
+        if LS.mutated(supplied):
+            emit(where, "operand-mutated", f"parameter tensor(s) {LS.mutated(supplied)} handed to the transform were modified")
+        return out
+
+    # contiguous transform (the layout under test is that of the points / the image)
+    st, b = guarded(LS.build, cls, D, grid, N, "buffer", "ctor", "expanded" if cls in LS.LINEAR + tuple(LS.COMPOSITE) else "sliced", seed)
+    if st == "raises" or b is None:
+        if acc is not None:
+            acc.undef("transform for the layout case could not be built")
+        return out
+    t = b[1]
+    if case["target"] == "points":
+        api = case["api"]
+        if api == "call-grid":
+            X = grid.coords().unsqueeze(0).repeat((N,) + (1,) * (D + 1)).contiguous()
+            X[1] = X[1] * 1.0
+        else:
+            X = LS.probe_points(D, N)
+            if api == "points-world":
+                X = torch.tensor(np.stack([rgrid.map_points(X[n].double().numpy(), rt.cube_axes(rgrid.ac), WORLD) for n in range(N)]), dtype=torch.float32)
+        if not LS.applicable(X, form):
+            return out
+        xa, xb = LS.variant(X, form)
+        fp = LS.fingerprint(xa)
+        if api == "call":
+            fn = lambda x: t(x)
+        elif api == "call-grid":
+            fn = lambda x: t(x, grid=True)
+        elif api == "points-world":
+            fn = lambda x: t.points(x, axes="world")
+        else:
+            pst = PointSetTransformer(t, axes="world", to_axes="cube")
+            fn = lambda x: pst(x)
+            xa2 = xa
+        st1, a1 = guarded(fn, xa)
+        st2, a2 = guarded(fn, xb)
+        if acc is not None:
+            acc.trans(2)
+        if st2 == "raises":
+            if acc is not None:
+                acc.undef("contiguous form raises (judged by the main sub-checks)")
+            return out
+        if st1 == "raises":
+            emit(api, raises_kind(a1), exc_text(a1))
+        else:
+            c_ = LS.compare(a1, a2)
+            if c_:
+                emit(api, c_[0], c_[1])
+            if acc is not None:
+                acc.outcome("layout", json_key(case), tensor_bytes(a1))
+        if LS.fingerprint(xa) != fp:
+            emit(api, "operand-mutated", "the point tensor handed to the transform was modified")
+        judged(api)
+        return out
+    if case["target"] == "image":
+        sw = rgrid.index_to_world(grid_indices(rgrid))
+        shape = tuple(int(v) for v in rgrid.n[::-1])
+        ramp = np.concatenate([np.ones((1, len(sw))), sw.T], axis=0).reshape((1, D + 1) + shape)
+        img = _tensor(np.concatenate([ramp, 0.5 * ramp], axis=0))
+        if not LS.applicable(img, form):
+            return out
+        ia, ib = LS.variant(img, form)
+        fp = LS.fingerprint(ia)
+        it = ImageTransformer(t)
+        st1, a1 = guarded(lambda: it(ia))
+        st2, a2 = guarded(lambda: it(ib))
+        if acc is not None:
+            acc.trans(2)
+        if st2 == "raises":
+            if acc is not None:
+                acc.undef("contiguous form raises (judged by the main sub-checks)")
+            return out
+        if st1 == "raises":
+            emit("ImageTransformer", raises_kind(a1), exc_text(a1))
+        else:
+            c_ = LS.compare(a1, a2)
+            if c_:
+                emit("ImageTransformer", c_[0], c_[1])
+            if acc is not None:
+                acc.outcome("layout", json_key(case), tensor_bytes(a1))
+        if LS.fingerprint(ia) != fp:
+            emit("ImageTransformer", "operand-mutated", "the image tensor handed to the transformer was modified")
+        judged("image")
+        return out
+    raise KeyError(case["target"])
+
+
+def json_key(case) -> str:
+    return repr(sorted((k, str(v)) for k, v in case.items()))
+
+
+LAYOUT_SHARD = 40
+
+
 def shards(tier: str, seed: int):
     cf = configs(tier, seed)
     n = len(cf)
     k = SHARD_SIZE[tier]
-    return [{"tier": tier, "seed": seed, "lo": i, "hi": min(i + k, n), "labs": sorted({label(c["desc"]) + f"/D{c['D']}" for c in cf[i:i + k]})} for i in range(0, n, k)]
+    out = [{"tier": tier, "seed": seed, "lo": i, "hi": min(i + k, n), "labs": sorted({label(c["desc"]) + f"/D{c['D']}" for c in cf[i:i + k]})} for i in range(0, n, k)]
+    nl = len(layout_cases(tier, seed))
+    out += [{"tier": tier, "seed": seed, "sub": "layout", "lo": i, "hi": min(i + LAYOUT_SHARD, nl)} for i in range(0, nl, LAYOUT_SHARD)]
+    return out
 
 
 def run_shard(shard) -> Acc:
     acc = Acc()
+    if shard.get("sub") == "layout":
+        for case in layout_cases(shard["tier"], shard["seed"])[shard["lo"]: shard["hi"]]:
+            st, r = guarded(run_layout, case, acc)
+            if st == "raises":
+                acc.violation(f"C06/harness/layout/raises={type(r).__name__}/{case['cls']}", {"layout": case, "harness": True}, exc_text(r), size=1)
+                continue
+            for sig, detail in r:
+                acc.violation(sig, {"layout": case}, detail, size=1)
+        return acc
     cf = configs(shard["tier"], shard["seed"])
     for i in range(shard["lo"], shard["hi"]):
         spec = dict(cf[i])
@@ -1012,6 +1203,11 @@ def run_shard(shard) -> Acc:
 
 
 def replay(case):
+    if "layout" in case:
+        st, r = guarded(run_layout, case["layout"], None)
+        if st == "raises":
+            return [(f"C06/harness/layout/raises={type(r).__name__}/{case['layout']['cls']}", exc_text(r))]
+        return r
     spec = case["spec"]
     st, r = guarded(run_config, spec, None, None)
     if st == "raises":
